@@ -32,6 +32,7 @@ def opts(tier):
     o.max_segments = 5
     o.max_channels = 4
     o.props = False
+    o.huge_p = 0.004
     o.many_segments_p = 0.01
     o.long_run_p = 0.006
     o.short_last_p = 0.05
